@@ -42,6 +42,47 @@ deriving Repr
 
 abbrev Kvs := List (Name × Tree)
 
+mutual
+def Tree.decEq : (a b : Tree) → Decidable (a = b)
+  | .leaf x, .leaf y => if h : x = y then isTrue (by rw [h]) else isFalse (by intro e; cases e; exact h rfl)
+  | .node x, .node y => match decEqKvs x y with
+    | isTrue h => isTrue (by rw [h])
+    | isFalse h => isFalse (by intro e; cases e; exact h rfl)
+  | .list x, .list y => match decEqList x y with
+    | isTrue h => isTrue (by rw [h])
+    | isFalse h => isFalse (by intro e; cases e; exact h rfl)
+  | .leaf _, .node _ => isFalse (by intro e; cases e)
+  | .leaf _, .list _ => isFalse (by intro e; cases e)
+  | .node _, .leaf _ => isFalse (by intro e; cases e)
+  | .node _, .list _ => isFalse (by intro e; cases e)
+  | .list _, .leaf _ => isFalse (by intro e; cases e)
+  | .list _, .node _ => isFalse (by intro e; cases e)
+def decEqKvs : (a b : List (Name × Tree)) → Decidable (a = b)
+  | [], [] => isTrue rfl
+  | [], _ :: _ => isFalse (by intro e; cases e)
+  | _ :: _, [] => isFalse (by intro e; cases e)
+  | (k, v) :: r, (k', v') :: r' =>
+    if hk : k = k' then
+      match Tree.decEq v v' with
+      | isTrue hv => match decEqKvs r r' with
+        | isTrue hr => isTrue (by rw [hk, hv, hr])
+        | isFalse hr => isFalse (by intro e; cases e; exact hr rfl)
+      | isFalse hv => isFalse (by intro e; cases e; exact hv rfl)
+    else isFalse (by intro e; cases e; exact hk rfl)
+def decEqList : (a b : List Tree) → Decidable (a = b)
+  | [], [] => isTrue rfl
+  | [], _ :: _ => isFalse (by intro e; cases e)
+  | _ :: _, [] => isFalse (by intro e; cases e)
+  | v :: r, v' :: r' =>
+    match Tree.decEq v v' with
+    | isTrue hv => match decEqList r r' with
+      | isTrue hr => isTrue (by rw [hv, hr])
+      | isFalse hr => isFalse (by intro e; cases e; exact hr rfl)
+    | isFalse hv => isFalse (by intro e; cases e; exact hv rfl)
+end
+instance : DecidableEq Tree := Tree.decEq
+
+
 /-- a Python value handed to `__setitem__`/`update`: something stored as it is (an int, a list, a
 dotdict instance) or a plain `dict`, which is converted at the leaf -/
 inductive PVal where
@@ -188,11 +229,17 @@ def parseGroups : Nat → Name → Option (List Int)
         | _, _ => none
     else none
 
+/-- the text before the first `[` -/
+def beforeBracket (m : Name) : Name := m.takeWhile (· ≠ '[')
+/-- the text from the first `[` on -/
+def fromBracket (m : Name) : Name := m.dropWhile (· ≠ '[')
+/-- the text between the first `[` and the last character (`mine.split('[',1)[1][:-1]`) -/
+def finalIdxText (m : Name) : Name := ((fromBracket m).drop 1).dropLast
+
 /-- `name[i][j]…` with at least one index -/
 def parseSeg (m : Name) : Option (Name × List Int) :=
-  let name := m.takeWhile (· ≠ '[')
-  let rest := m.dropWhile (· ≠ '[')
-  if isIdent name ∧ rest ≠ [] then (parseGroups (rest.length + 1) rest).map fun is => (name, is)
+  if isIdent (beforeBracket m) ∧ fromBracket m ≠ [] then
+    (parseGroups ((fromBracket m).length + 1) (fromBracket m)).map fun is => (beforeBracket m, is)
   else none
 
 /-! ### one level -/
@@ -347,18 +394,16 @@ def setK (cfg : Cfg) : Kvs → List Name → Option Err → Except Err Tree → 
       | .error e => (kvs, some e)                    -- converting the plain dict failed
       | .ok tv =>
         if '[' ∈ m ∧ m.getLast? = some ']' then
-          let name := m.takeWhile (· ≠ '[')
-          let idx := ((m.dropWhile (· ≠ '[')).drop 1).dropLast
-          match parseFinalIdx idx with
+          match parseFinalIdx (finalIdxText m) with
           | .oom => (kvs, some .oom)
           | .syntaxErr => (kvs, some .syntax)
           | .lit i =>
-            match lookupK name kvs with
+            match lookupK (beforeBracket m) kvs with
             | none => (kvs, some .key)
             | some (.list xs) =>
               (match normIndex xs.length i with
                | none => (kvs, some .index)
-               | some j => (insertK name (.list (listSet xs j tv)) kvs, none))
+               | some j => (insertK (beforeBracket m) (.list (listSet xs j tv)) kvs, none))
             | some _ => (kvs, some .type)
         else if isReserved cfg m then (kvs, some .key)
         else (insertK m tv kvs, none)
@@ -575,4 +620,129 @@ def updateT (cfg : Cfg) (t : Tree) : List (Name × PVal) → Tree × Option Err
     | (t', some e) => (t', some e)
     | (t', none) => updateT cfg t' r
 
+
+/-! ### operation sequences -/
+
+inductive Op where
+  | get (k : Name) | contains (k : Name)
+  | set (k : Name) (v : PVal) | del (k : Name) | pop (k : Name) (hasD : Bool)
+  | setdefault (k : Name) (v : PVal) | update (items : List (Name × PVal))
+
+/-- the dotdict after an operation (whether or not it raised) -/
+def applyOp (cfg : Cfg) (t : Tree) : Op → Tree
+  | .get _ => t
+  | .contains _ => t
+  | .set k v => (setT cfg t k v).1
+  | .del k => (delT cfg t k).1
+  | .pop k hasD => (popT cfg t k hasD).1
+  | .setdefault k v => (setdefaultT cfg t k v).1
+  | .update items => (updateT cfg t items).1
+
+def run (cfg : Cfg) (t : Tree) (ops : List Op) : Tree := ops.foldl (applyOp cfg) t
+
 end Cpppo.Dotdict
+
+/-!
+### Object identities: what `__copy__` did before its `fix:`
+
+`copy.copy( d )` built a new dotdict for every level reached through a dot, but for a list it made a
+shallow list copy: the dotdicts *inside* the list stayed the same objects.  To state that, values need
+identities: a heap of cells addressed by position.  `copyObj false` is the old `__copy__`,
+`copyObj true` the repaired one (`dup`: lists are copied element by element).
+-/
+namespace Cpppo.Dotdict.Heap
+open Cpppo.Dotdict
+
+inductive Obj where
+  | int (v : Int)
+  | dict (kvs : List (Name × Nat))
+  | list (xs : List Nat)
+deriving Repr, DecidableEq
+
+abbrev Heap := List Obj
+
+mutual
+/-- build a tree in the heap; the address of its root is returned -/
+def alloc : Tree → Heap → Heap × Nat
+  | .leaf v, h => (h ++ [.int v], h.length)
+  | .node kvs, h => let (h1, ks) := allocKvs kvs h; (h1 ++ [.dict ks], h1.length)
+  | .list xs, h => let (h1, as) := allocList xs h; (h1 ++ [.list as], h1.length)
+def allocKvs : Kvs → Heap → Heap × List (Name × Nat)
+  | [], h => (h, [])
+  | (k, v) :: r, h =>
+    let (h1, a) := alloc v h
+    let (h2, ks) := allocKvs r h1
+    (h2, (k, a) :: ks)
+def allocList : List Tree → Heap → Heap × List Nat
+  | [], h => (h, [])
+  | v :: r, h =>
+    let (h1, a) := alloc v h
+    let (h2, as) := allocList r h1
+    (h2, a :: as)
+end
+
+def cell (h : Heap) (a : Nat) : Obj := (h[a]?).getD (.int 0)
+
+/-- the tree an address denotes -/
+def read : Nat → Heap → Nat → Tree
+  | 0, _, _ => .leaf 0
+  | f + 1, h, a =>
+    match cell h a with
+    | .int v => .leaf v
+    | .dict kvs => .node (kvs.map fun (k, a') => (k, read f h a'))
+    | .list xs => .list (xs.map (read f h))
+
+/-- thread the heap through a list of addresses -/
+def mapAcc (g : Heap → Nat → Heap × Nat) : Heap → List Nat → Heap × List Nat
+  | h, [] => (h, [])
+  | h, a :: r =>
+    let (h1, a') := g h a
+    let (h2, as) := mapAcc g h1 r
+    (h2, a' :: as)
+
+/-- `copy.copy( obj )`; `fixed = false`: the old `__copy__` -/
+def copyObj (fixed : Bool) : Nat → Heap → Nat → Heap × Nat
+  | 0, h, a => (h, a)
+  | f + 1, h, a =>
+    match cell h a with
+    | .int _ => (h, a)                                   -- immutable: the same object
+    | .dict kvs =>                                       -- `__copy__`: a new level, every value copied
+      let (h1, as) := mapAcc (copyObj fixed f) h (kvs.map (·.2))
+      (h1 ++ [.dict ((kvs.map (·.1)).zip as)], h1.length)
+    | .list xs =>
+      if fixed then
+        let (h1, as) := mapAcc (copyObj fixed f) h xs    -- `[ dup( e ) for e in v ]`
+        (h1 ++ [.list as], h1.length)
+      else (h ++ [.list xs], h.length)                   -- `copy.copy( list )`: same elements
+
+inductive Step where
+  | key (k : Name) | idx (i : Nat)
+
+/-- follow a path of keys and list positions -/
+def walk (h : Heap) : Nat → List Step → Option Nat
+  | a, [] => some a
+  | a, .key k :: r =>
+    match cell h a with
+    | .dict kvs => match kvs.lookup k with
+      | some a' => walk h a' r
+      | none => none
+    | _ => none
+  | a, .idx i :: r =>
+    match cell h a with
+    | .list xs => match xs[i]? with
+      | some a' => walk h a' r
+      | none => none
+    | _ => none
+
+/-- `root[path][k] = v` for an int `v`: the mapping at `path` is mutated in place -/
+def assign (h : Heap) (root : Nat) (path : List Step) (k : Name) (v : Int) : Option Heap :=
+  match walk h root path with
+  | none => none
+  | some a =>
+    match cell h a with
+    | .dict kvs =>
+      let h1 := h ++ [.int v]
+      some (h1.set a (.dict ((kvs.filter fun p => p.1 != k) ++ [(k, h.length)])))
+    | _ => none
+
+end Cpppo.Dotdict.Heap
